@@ -540,11 +540,83 @@ func relayLayerCaseMode(t *testing.T, r *Recorder, seed, mode int) {
 	r.Emit(fmt.Sprintf("relay.run %s %s", strings.Join(sendScript, ","), flatRecv), out)
 }
 
+// relayLayerCancelCase: the relay creates mailboxes but refuses every stream request. A stream
+// function of the mailbox layer that is caught in its retry loop must still return once its context
+// is cancelled (that is how GoBackNConn.Close releases its loop goroutines) - otherwise the
+// connection can neither complete nor fail. `which`: "server-recv", "server-send", "client-recv",
+// "client-send".
+func relayLayerCancelCase(t *testing.T, r *Recorder, which string) {
+	var returned bool
+	var bad string
+	func() {
+		defer func() {
+			if p := recover(); p != nil {
+				bad = fmt.Sprint(p)
+			}
+		}()
+		synctest.Test(t, func(t *testing.T) {
+			relay := NewFakeRelay()
+			relay.RefuseStreams = true
+			var x, y [64]byte
+			x[0], y[0] = 3, 4
+			ctx, cancel := context.WithCancel(context.Background())
+			relay.NewCipherBox(ctx, &hashmailrpc.CipherBoxAuth{Desc: &hashmailrpc.CipherBoxDesc{StreamId: x[:]}})
+			relay.NewCipherBox(ctx, &hashmailrpc.CipherBoxAuth{Desc: &hashmailrpc.CipherBoxDesc{StreamId: y[:]}})
+			callCtx, callCancel := context.WithCancel(ctx) // the Go-Back-N connection's context
+			done := make(chan struct{})
+			var closer func() error
+			go func() {
+				defer close(done)
+				switch which {
+				case "server-recv":
+					c := mailbox.VBareServerConn(ctx, relay, x, y)
+					closer = c.Close
+					c.VRecvFromStream(callCtx)
+				case "server-send":
+					c := mailbox.VBareServerConn(ctx, relay, x, y)
+					closer = c.Close
+					c.VSendToStream(callCtx, []byte{1})
+				case "client-recv":
+					c := mailbox.VBareClientConn(ctx, relay, x, y)
+					closer = c.Close
+					c.VRecv(callCtx)
+				case "client-send":
+					c := mailbox.VBareClientConn(ctx, relay, x, y)
+					closer = c.Close
+					c.VSend(callCtx, []byte{1})
+				}
+			}()
+			time.Sleep(9 * time.Second) // several refused attempts
+			callCancel()
+			select {
+			case <-done:
+				returned = true
+			case <-time.After(30 * time.Second):
+			}
+			cancel()
+			if closer != nil && returned {
+				closer()
+			}
+			if returned {
+				synctest.Wait()
+			}
+		})
+	}()
+	name := "relay-layer-cancel:" + which
+	r.Case(name, true, "relay-layer-cancel")
+	if !returned {
+		r.Violate("C05/relay-layer-ignores-cancel", fmt.Sprintf("%s: the relay refuses stream requests (mailboxes exist); the stream function was still retrying 30 s after its context had been cancelled: a connection closed in this situation never finishes closing, its peer-facing side neither completes nor fails (%s)", which, bad), name)
+	}
+}
+
 func TestC05(t *testing.T) {
 	r := NewRecorder(t, "C05")
 	defer r.Close(t)
 	for i := 0; i < pick(150, 3000); i++ {
 		relayLayerCase(t, r, i)
+	}
+	for _, which := range []string{"server-recv", "server-send", "client-recv", "client-send"} {
+		relayLayerCancelCase(t, r, which)
 	}
 	scs := c05Scenarios()
 	var mu sync.Mutex
